@@ -32,11 +32,11 @@ def parseCfg (tok : String) : Search.Cfg × String :=
      tableEntries := if tbl < 0 then none else some tbl.toNat
      randomizeWindow := kvInt l "rw" 0
      randomizeScale := if rs == 0 then 1 else rs
-     noSort := kvNat l "sort" 0 == 0
-     noNullMove := kvNat l "null" 0 == 0
-     noReduceSlides := kvNat l "red" 0 == 0
-     multiCut := kvNat l "mc" 0 == 1
-     dedupSymmetry := kvNat l "dd" 0 == 1 },
+     opts := { noSort := kvNat l "sort" 0 == 0
+               noNullMove := kvNat l "null" 0 == 0
+               noReduceSlides := kvNat l "red" 0 == 0
+               multiCut := kvNat l "mc" 0 == 1
+               dedupSymmetry := kvNat l "dd" 0 == 1 } },
    (l.lookup "ev").getD "w")
 
 def evalOf (name : String) : Pos → Int :=
